@@ -321,6 +321,7 @@ def run(case):
       self.model = None   # the model config (a real fiddle object, edited by exec)
       self.queue = []     # directives parsed into the flag but not yet applied
   fss = {}
+  serializer = fdl_flags.FiddleFlagSerializer()
   applied = 0
   if any(st.get('f') for st in case['steps']):
     probes['two_flags'] = 1
@@ -438,7 +439,7 @@ def run(case):
         viols.append(v)
         return res
     if st['op'] == 'roundtrip' and value is not None:
-      ser = fdl_flags.FiddleFlagSerializer().serialize(value)
+      ser = serializer.serialize(value)   # ONE serializer for the whole run
       flag2 = new_flag()
       try:
         flag2.parse([ser])
@@ -454,7 +455,9 @@ def run(case):
                        f'step #{idx}: ' + '; '.join(C.diff(b, c))))
         return res
       bump(probes, 'config_str_roundtrips')
-      fs.flag = flag2    # the history continues on the transported object
+      if idx % 2 == 0:
+        fs.flag = flag2  # the history continues on the transported object
+      # (else: it continues on the original, which will be dumped again later)
   res['nontrivial'] = applied >= 2
   return res
 
